@@ -9,6 +9,7 @@ package interp
 
 import (
 	"fmt"
+	"go/token"
 	"go/types"
 	"strconv"
 
@@ -33,6 +34,21 @@ type litseg struct {
 }
 
 type fallthroughToSSA struct{}
+
+// litBinop compares an opaque literal (as a pseudo byte) with a byte: it never equals a byte that
+// cannot occur in a literal; anything else needs the literal's text and is unsupported.
+func litBinop(op token.Token, other value) value {
+	if c, ok := other.(uint8); ok && !litChar(c) {
+		switch op {
+		case token.EQL:
+			return false
+		case token.NEQ:
+			return true
+		}
+	}
+	unsupported("byte-wise use of an opaque integer literal")
+	return nil
+}
 
 func hasLit(s value) bool {
 	if ss, ok := s.(symstr); ok {
